@@ -24,3 +24,20 @@ Theorem C11_no_event : forall w c i ch e,
   do_put w c [(i, None, Some e)] = (w, [(i, None, Some (-70406)%Z)]).
 Proof. exact put_event_refused. Qed.
 Print Assumptions C11_no_event.
+
+(** ... wherever the refused entry stands in a write of several entries: it is answered with -70406 and
+    the entries that follow are processed exactly as if it were not there. *)
+Theorem C11_no_event_in_any_position : forall w c i ch e rest,
+  get_char (chars w) i = Some ch -> p_event ch = false ->
+  do_put w c ((i, None, Some e) :: rest) = (fst (do_put w c rest), (i, None, Some (-70406)%Z) :: snd (do_put w c rest)).
+Proof. exact put_event_refused_any. Qed.
+Print Assumptions C11_no_event_in_any_position.
+
+(** Events never reveal a value that may not be read: whatever is written to (or set on) a
+    characteristic without read permission — observable or not — the events this update sends to
+    its subscribers carry no value (nil). *)
+Theorem C11_event_never_reveals_unreadable : forall w i v o chk ch e,
+  get_char (chars w) i = Some ch -> p_read ch = false -> cvalue ch = None ->
+  In e (outbox (apply_update w i v o chk)) -> In e (outbox w) \/ (snd (fst e) = i /\ snd e = VNil).
+Proof. exact event_never_reveals_unreadable. Qed.
+Print Assumptions C11_event_never_reveals_unreadable.
